@@ -20,6 +20,12 @@ func init() {
 	// WriteToTTML emits as xml:lang; the plain view carries no metadata, so ttml_enc of the plain cues has no xml:lang.
 	// The cues themselves are covered for this pair by suiteConvert's oracle.
 	plainSkipPairs["stl->ttml"] = "STL reader sets Metadata.Language from the GSI block, written by the TTML writer as xml:lang"
+	// styled sources into STL: modelled by coq/Model/ConvStl.v (the writer joins the line items of a line with a blank; SSA
+	// carries the script's title, TTML frame rate / title / language)
+	plainStyledModels["srt->stl"] = "convsrtstl"
+	plainStyledModels["vtt->stl"] = "convvttstl"
+	plainStyledModels["ssa->stl"] = "convssastl"
+	plainStyledModels["ttml->stl"] = "convttmlstl"
 	plainCodecs = append(plainCodecs, plainCodec{3, "stl", 4e7,
 		func(b []byte) (*astisub.Subtitles, error) {
 			return astisub.ReadFromSTL(bytes.NewReader(b), astisub.STLOptions{})
